@@ -281,7 +281,7 @@ func (c *Collection) get(q queryable, key string, outVal any) (cas CAS, err erro
 
 func (c *Collection) GetExpiry(_ context.Context, key string) (exp Exp, err error) {
 	traceEnter("GetExpiry", "%q", key)
-	row := c.db().QueryRow("SELECT exp FROM documents WHERE collection=? AND key=?", c.id, key)
+	row := c.db().QueryRow("SELECT exp FROM documents WHERE collection=? AND key=? AND value NOT NULL", c.id, key)
 	err = scan(row, &exp)
 	err = remapKeyError(err, key)
 	traceExit("GetExpiry", err, "%d", exp)
